@@ -29,13 +29,13 @@ P = {
     "extra_coverage": _drift,
     "coq_targets": ["Properties/C11.vo", "Run/Eval_C11.vo"],
     "theorems_module": "Properties.C11",
-    "theorems": ["C11_no_boundary_shift", "C11_collision_needs_shift", "C11_F4_refuted", "C11_key_deterministic", "C11_F1_refuted",
+    "theorems": ["C11_no_boundary_shift", "C11_collision_needs_shift", "C11_F4_refuted", "C11_key_deterministic", "C11_F1_pinned_refuted",
                  "C11_key_injective", "C11_cache_transparent", "C11_cache_transparent_repaired", "C11_cache_transparent_repaired6", "C11_nonvacuous", "C11_nonvacuous_mixed",
                  "C11_identical_requests_hit", "C11_stored_entry_is_returned",
-                 "C11_F2_refuted", "C11_F3_refuted", "C11_F4_history_refuted", "C11_F6_refuted", "C11_F7_refuted", "C11_F10_refuted",
-                 "C11_cc_cache_transparent", "C11_cc_F4_refuted", "C11_jf_cache_transparent", "C11_F5_refuted",
-                 "C11_hc_cache_transparent", "C11_hc_cache_transparent_repaired", "C11_F8_refuted", "C11_F9_refuted",
-                 "C11_jk_cache_transparent", "C11_F11_refuted"],
+                 "C11_F2_pinned_refuted", "C11_F3_pinned_refuted", "C11_F4_history_refuted", "C11_F6_pinned_refuted", "C11_F7_refuted", "C11_F10_pinned_refuted",
+                 "C11_cc_cache_transparent", "C11_cc_F4_refuted", "C11_jf_cache_transparent", "C11_F5_pinned_refuted",
+                 "C11_hc_cache_transparent", "C11_hc_cache_transparent_repaired", "C11_F8_pinned_refuted", "C11_F9_pinned_refuted",
+                 "C11_jk_cache_transparent", "C11_F11_pinned_refuted"],
     "streams": [{
         "name": "histories", "pkg": "./internal/rules/mechanisms", "test": "TestVerifC11",
         "overlay": OVERLAY, "eval_module": "Run.Eval_C11", "check_term": "check fx_all6",
@@ -47,14 +47,14 @@ P = {
         "n_quick": 300, "n_thorough": 3000, "shard": 56,
         "findings": {4: "C11-F4"},
     }],
-    "rule": "stream histories: histories of 2 to about 12 executions of REAL caching mechanisms (oauth2_introspection and generic authenticators, "
+    "rule": "stream histories: histories of 2 to 17 executions of REAL caching mechanisms (oauth2_introspection and generic authenticators, "
             "remote authorizer, generic contextualizer) created by the real mechanism factory from a generated prototype (0-3 endpoint "
             "headers, 0-3 values, api-key/basic/client-credentials auth strategies, templated URL/headers/payload, forwarded "
             "headers/cookies, response headers handed on to the upstream service, session_lifespan, ttl unset/positive/0), optionally a "
             "rule-level reconfiguration (scope and audience assertions, expressions, payload, values, ttl, forwarded names) and a "
             "near-copy sibling prototype (different id; id/payload, header name/value, api-key, basic-auth, client-credential fields "
-            "shifted across their boundaries; url, method, payload, forwarded names, session lifespan changed); 40% of the histories mix "
-            "up to four kinds of mechanisms on the one shared cache; subject ids, tokens, header values and outputs come in different "
+            "shifted across their boundaries; url, method, payload, forwarded names, session lifespan changed); about a third of the histories mix "
+            "up to four kinds of mechanisms on the one shared cache (mixing is attempted in 40%); subject ids, tokens, header values and outputs come in different "
             "lengths; each step is derived from an earlier one as identical / other instance / one request component changed (subject, "
             "attribute, each referenced header, cookie, output, credential) / two values shifted against each other / a pair for a derivation with OPTIONAL components (two forwarded headers "
             "or cookies, two values): the second absent and the first value absorbing its name and value, or both present with the name "
@@ -81,7 +81,9 @@ P = {
                 "internal/rules/mechanisms/finalizers/jwt_finalizer.go", "internal/rules/mechanisms/finalizers/jwt_signer.go",
                 "internal/rules/oauth2/clientcredentials/clientcredentials.go", "internal/rules/mechanisms/subject/subject.go",
                 "internal/rules/mechanisms/template/template.go", "internal/rules/endpoint/authstrategy/api_key.go",
-                "internal/rules/endpoint/authstrategy/basic_auth.go", "internal/httpcache/round_tripper.go"],
+                "internal/rules/endpoint/authstrategy/basic_auth.go", "internal/httpcache/round_tripper.go",
+                "internal/rules/mechanisms/authenticators/jwt_authenticator.go",
+                "internal/rules/endpoint/authstrategy/client_credentials.go", "internal/cache/memory/cache.go"],
     "trusted": [
         "SHA-256 is a parameter H of the model; in the correspondence run it is the table pre-image -> digest computed by the real "
         "crypto/sha256 on pre-images the driver proposes (a missing entry makes the correspondence fail); theorems that need keys to "
@@ -107,18 +109,25 @@ P = {
                   "contextualizer / jwt authenticator key cache / jwt finalizer / client credentials / RFC 7234 cache, each with the "
                   "ttl bytes of 8647e06) and of their look-up/validate/store logic: pre-images are injective on their writes unless two "
                   "writes differ in length (no boundary shifting); keys do not depend on map iteration order; equal keys imply equal "
-                  "key components for well-formed instances (key injectivity, SHA-256 assumed collision-free); for ALL histories, "
-                  "instances (of all four kinds mixed on one cache), requests and iteration orders on which no guard of an open "
+                  "key components for well-formed instances (key injectivity, SHA-256 assumed collision-free; the forwarded values "
+                  "and the authenticator's payload template, in the keys since 0b950ef, are handled by lemma fx6_no_F6 instead of the "
+                  "component record); for ALL well-formed histories (sorted maps, templates that can be read back from their text, equal "
+                  "subject JSON only for equal subject ids), instances (of all four kinds mixed on one cache), requests and iteration orders on which no guard of an open "
                   "finding fires, every outcome with the cache equals the outcome of a fresh evaluation under the instance's own "
                   "policy (cache transparency, also for the token caches, the key cache with forged issuer claims and with keys that "
                   "fail validation, and the finalizer across key-store reloads); an identical request after an allowed one is answered "
-                  "without a remote call, and what a look-up stores is what every later look-up of that key receives after any "
-                  "sequence of other look-ups and stores (entries are stable; checked on the real in-memory backend with A B A / "
-                  "A B C A B histories of every caching mechanism). The guard of F4 is exact (equal pre-image bytes of different writes), the guard of F7 fires "
-                  "only for two look-ups that share a key; two proved witnesses (one kind; three kinds with values of different lengths) "
-                  "show the hypotheses are satisfiable. Every open finding (F4, F7) has a guard and a proved witness; the repaired "
-                  "ones (F1, F2, F3, F5, F6, F8, F9, F10, F11) are model switches with the pinned behaviour kept as refutation "
-                  "(C11_F6_refuted is about the key layout before 0b950ef). C11_cache_transparent_repaired6 is the statement about the "
+                  "without a remote call (proved for the four pipeline mechanisms; for the token, finalizer, key and RFC 7234 caches "
+                  "checked on the runs only), and what a look-up stores is what every later look-up of that key receives after any "
+                  "sequence of other look-ups and stores (C11_stored_entry_is_returned is an invariant of the model's association "
+                  "list, true by construction; its content is that the REAL in-memory backend agrees with it on the A B A / A B C A B "
+                  "histories of every caching mechanism). The guard of F4 is exact (equal pre-image bytes of different writes), the guard of F7 fires "
+                  "only for two look-ups that share a key (it is not exact: it also fires when the outputs differ in an output the "
+                  "endpoint templates do not read); two proved witnesses (one kind; three kinds with values of different lengths; neither "
+                  "contains a contextualizer or forwarded headers, and the token / finalizer / RFC 7234 / key-cache theorems have no "
+                  "witness of their own - their hypotheses are boolean tests that hold on the empty history) show the hypotheses of the "
+                  "main theorem are satisfiable. Every open finding (F4, F7) has a guard and a proved witness about the code as it is "
+                  "(C11_F4_refuted, C11_F4_history_refuted, C11_cc_F4_refuted, C11_F7_refuted; fx_all6); the nine repaired ones (F1, F2, F3, "
+                  "F5, F6, F8, F9, F10, F11) are model switches with the behaviour before the commit kept as C11_Fn_pinned_refuted. C11_cache_transparent_repaired6 is the statement about the "
                   "code as it is: since 0b950ef the keys of the generic contextualizer and the generic authenticator cover the forwarded "
                   "headers and cookies with their values (the authenticator's also its payload template), so no F6 hypothesis is left; "
                   "its F4 guard also covers the two new digests over forwarded names and values. The model is "
@@ -129,19 +138,31 @@ P = {
     "level_note": "Trusted: Coq kernel/vm_compute; the correspondence harness (generator, echo/token/JWKS servers, recording cache, "
                   "rendering); SHA-256 as a parameter (observed digests; injectivity assumed only where stated); map order, "
                   "json.Marshal, JWK thumbprints, the RFC 7234 parser, the template fragment and the CEL fragment as listed. Open "
-                  "findings observed on every run (corpus): C11-F4 (delimiter-less concatenation; a repair candidate is fixes/C11-F4.diff, "
-                  "not applied: the defect sits at 14 sites), F7 (.Outputs in endpoint templates not in key; no repair without editing "
+                  "findings observed on every run (corpus): C11-F4 (delimiter-less concatenation; the defect sits at 16 sites: the 14 key/hash derivations "
+                  "plus the two forwardedHash helpers added by 0b950ef; the repair candidate fixes/C11-F4.diff was made against 4a30678, "
+                  "no longer applies to HEAD and does not cover the latter two; not applied because it is not small), F7 (.Outputs in endpoint templates not in key; no repair without editing "
                   "a unit test that pins the key). Fixed and modelled as "
                   "switches: F1 9b4883e, F2 deaddf0, F3 abe584c, F5 d9caf75, F8 and F9 12fdf68 (httpcache: only GET/HEAD looked up and "
                   "stored, no response with Vary stored), F10 abc25e7 (session lifespan asserted on a hit), F11 d20d7cd (a cached JWK "
                   "that fails validation is ignored and fetched again), F6 0b950ef (forwarded header/cookie names and values, and the "
                   "generic authenticator's payload template, are part of the keys). Not covered: the claims template of the jwt finalizer beyond "
-                  ".Subject.ID/.Outputs, http_message_signatures' hash, introspection via metadata_endpoint, key collisions ACROSS "
-                  "kinds of mechanisms on one URL (excluded by the F4 guard on the endpoint level), the redis cache backend. Aliasing of stored "
+                  ".Subject.ID/.Outputs, http_message_signatures' hash, introspection via metadata_endpoint, issuer and time-validity assertions, JWT-shaped "
+                  "introspection tokens, .Request.* beyond headers and .Subject.Attributes in templates, templated headers of the JWKS "
+                  "endpoint (rendered into the key since 4a30678; the key-cache model has literal headers only), httpcache methods other "
+                  "than GET/HEAD/POST, the redis cache backend. Cross-kind key collisions on one URL are not generated (the kinds sit on "
+                  "different paths of the test server); in the theorems such a pair falls under the exact F4 guard on the key pre-images. "
+                  "That keys do not depend on 'any other incidental nondeterminism' (json.Marshal of subject and outputs) is an oracle, "
+                  "not a theorem. Aliasing of stored "
                   "entries through sync.Pool'ed buffers is caught on the in-memory backend but depends on the scheduler handing the buffer back.",
     "assumptions": [
         "time is not modelled: all look-ups of a history happen within the TTL (expiry is C10)",
         "the remote system is a deterministic function of the request it receives (what 'a fresh evaluation would yield' means)",
         "credentials, header values and template literals are printable ASCII without URL-special characters",
+        "wf_history (hypothesis of the transparency theorems): endpoint headers and values sorted by name, url / header / payload "
+        "templates well-formed (no empty or adjacent literals, no brace in a literal), json_faithful (equal subject JSON implies "
+        "equal subject id)",
+        "C11_jf_cache_transparent: jf_faithful (template text, subject JSON and outputs JSON determine their sources) and, with fx5, "
+        "thumbs_faithful (distinct signing keys have distinct thumbprints)",
+        "the two non-vacuity theorems assume String.length (H x) = 32 (C11_nonvacuous_mixed also injective H)",
     ],
 }
